@@ -124,6 +124,8 @@ pub enum Op {
     ProtectText { mode: u8 },
     /// performance-only: must not change any answer
     ShrinkToFit,
+    /// declare a key that no data uses (as the "keys" list of a STAM JSON dataset does): `dataset.insert(DataKey::new(..))`
+    AddKey { set: u16, name: u8 },
 }
 
 impl Op {
@@ -141,6 +143,8 @@ impl Op {
 
 pub const KEYS: [&str; 6] = ["pos", "lemma", "n", "κλειδί", "a b", "type"];
 pub const KEYS_HOSTILE: [&str; 6] = ["pos", "le\"mma", "n\\x", "κλει\tδί", "a b", "http://example.org/type"];
+/// names of keys declared without data (disjoint from KEYS / KEYS_HOSTILE)
+pub const BARE_KEYS: [&str; 6] = ["status", "reviewed", "conf", "κ0", "x y", "note"];
 pub const SUFFIXES: [&str; 6] = ["", "", "-x", "é", " z", "/p"];
 pub const SUFFIXES_HOSTILE: [&str; 6] = ["", "\"q", "\\b", "é\n", " z\t", "/p😀"];
 
@@ -370,6 +374,7 @@ pub fn op_strategy(cfg: &HistCfg) -> BoxedStrategy<Op> {
         (rw, ((idx(), idx(), any::<bool>(), proptest::bool::weighted(0.3)).prop_map(|(set, pick, strict, by_id)| Op::RemoveData { set, pick, strict, by_id })).boxed()),
         (rw / 2 + 1, ((idx(), idx(), any::<bool>(), proptest::bool::weighted(0.3)).prop_map(|(set, pick, strict, by_id)| Op::RemoveKey { set, pick, strict, by_id })).boxed()),
         (1, (Just(Op::ShrinkToFit)).boxed()),
+        (1, ((idx(), 0u8..6).prop_map(|(set, name)| Op::AddKey { set, name })).boxed()),
         (rw / 4 + 1, ((idx(), any::<bool>(), proptest::bool::weighted(0.15)).prop_map(|(pick, by_id, by_temp)| Op::RemoveResource { pick, by_id, by_temp })).boxed()),
         (rw / 4 + 1, ((idx(), any::<bool>(), proptest::bool::weighted(0.15)).prop_map(|(pick, by_id, by_temp)| Op::RemoveDataset { pick, by_id, by_temp })).boxed()),
         (cfg.protect_weight, ((0u8..4).prop_map(|mode| Op::ProtectText { mode })).boxed()),
@@ -442,6 +447,11 @@ pub struct Machine {
     counter: usize,
     /// the last prepared annotate named the same data twice
     pub dup_data: bool,
+    /// give one in six new items a public id that looks like a temporary id ("!A2", "!R0", "!S1", "!D3") - a legal
+    /// public id that must resolve to the item carrying it, whatever sits in the slot the number names (C03 only:
+    /// in a serialised document such an id is ambiguous with the temporary id of an id-less item)
+    pub tempid_ids: bool,
+    used_tempid_ids: std::collections::BTreeSet<String>,
 }
 
 fn bi_res(m: &Model, r: usize, by_handle: bool) -> BuildItem<'static, TextResource> {
@@ -489,6 +499,8 @@ impl Machine {
             hostile,
             counter: 0,
             dup_data: false,
+            tempid_ids: false,
+            used_tempid_ids: Default::default(),
         }
     }
     fn sfx(&self, i: u8) -> &'static str {
@@ -507,6 +519,21 @@ impl Machine {
     }
     fn fresh(&mut self, prefix: &str, sfx: u8) -> String {
         self.counter += 1;
+        if self.tempid_ids && (self.counter + sfx as usize) % 6 == 5 {
+            // the number names a slot that does not exist yet (so the request cannot be read as a reference to a live
+            // id-less item) and that later insertions will fill
+            let (letter, slots) = match prefix {
+                "A" => ("A", self.model.anns.len()),
+                "D" => ("D", self.model.sets.iter().flatten().map(|s| s.data.len()).max().unwrap_or(0) + 3),
+                "S" | "s" => ("S", self.model.sets.len() + 1),
+                "r" => ("R", self.model.resources.len()),
+                _ => ("A", self.model.anns.len()),
+            };
+            let cand = format!("!{}{}", letter, slots + 1 + (self.counter + sfx as usize) % 2);
+            if self.used_tempid_ids.insert(cand.clone()) {
+                return cand;
+            }
+        }
         format!("{}{}{}", prefix, self.counter, self.sfx(sfx))
     }
 
@@ -789,6 +816,37 @@ impl Machine {
                 self.finish_add(&mut step, res.map(|r| r.map(|h| h.as_usize())), expected);
                 step
             }
+            Op::AddKey { set, name } => {
+                let live = self.model.live_sets();
+                if live.is_empty() {
+                    return Step::skip("add_key", "no dataset");
+                }
+                let s = live[pick(*set, live.len())];
+                let key = BARE_KEYS[*name as usize % 6];
+                if self.model.set(s).key_by_id(key).is_some() {
+                    return Step::skip("add_key", "key exists");
+                }
+                let mut step = Step::new("add_key");
+                step.labels.push("bare_key");
+                let sh = AnnotationDataSetHandle::new(s);
+                let res = catch(|| {
+                    let set: &mut AnnotationDataSet = self.store.get_mut(sh)?;
+                    set.insert(DataKey::new(key))
+                });
+                self.model.sets[s].as_mut().unwrap().keys.push(Some(key.to_string()));
+                let expect = self.model.set(s).keys.len() - 1;
+                match res {
+                    Ok(Ok(h)) => {
+                        if h.as_usize() != expect {
+                            step.mismatch = Some(format!("insert(DataKey) returned key handle {}, the model expects {}", h.as_usize(), expect));
+                        }
+                        step.result = Ok(());
+                    }
+                    Ok(Err(e)) => step.result = Err(format!("{}", e)),
+                    Err(p) => step.panic = Some(p),
+                }
+                step
+            }
             Op::InsertData { set, d } => {
                 let live = self.model.live_sets();
                 if live.is_empty() {
@@ -868,7 +926,7 @@ impl Machine {
                 }
                 let a = live[pick(*p, live.len())];
                 let mut step = Step::new("remove_annotation");
-                let item = if *by_temp {
+                let item = if *by_temp && !self.tempid_ids {
                     step.labels.push("removal_by_temp_id");
                     BuildItem::Id(format!("!A{}", a))
                 } else {
@@ -890,7 +948,7 @@ impl Machine {
                 }
                 let r = live[pick(*p, live.len())];
                 let mut step = Step::new("remove_resource");
-                let id = if *by_temp {
+                let id = if *by_temp && !self.tempid_ids {
                     step.labels.push("removal_by_temp_id");
                     format!("!R{}", r)
                 } else {
@@ -915,7 +973,7 @@ impl Machine {
                 }
                 let s = live[pick(*p, live.len())];
                 let mut step = Step::new("remove_dataset");
-                let id = if *by_temp {
+                let id = if *by_temp && !self.tempid_ids {
                     step.labels.push("removal_by_temp_id");
                     format!("!S{}", s)
                 } else {
@@ -964,7 +1022,8 @@ impl Machine {
                 let sh = AnnotationDataSetHandle::new(s);
                 let dh = AnnotationDataHandle::new(d);
                 let strict_ = *strict;
-                let res = if *by_id {
+                // (an id-less item is not addressed by its temporary id while other items may carry that string as public id)
+                let res = if *by_id && !(self.tempid_ids && self.model.set(s).data[d].as_ref().unwrap().id.is_none()) {
                     step.labels.push("removal_by_id_strings");
                     let sid = self.model.set(s).id.clone();
                     let did = self.model.set(s).data[d].as_ref().unwrap().id.clone().unwrap_or_else(|| format!("!D{}", d));
